@@ -67,6 +67,37 @@ fn universe_from(v: &Value) -> Universe {
 
 /// Replay ops on a fresh directory; Obs at every successful block boundary.
 pub fn replay_with_obs(ops: &[Op], u: &Universe, reopen_after_commit: bool) -> TwinOut {
+    replay_with_obs_probes(ops, u, reopen_after_commit, true)
+}
+
+/// Simulations with Bitcoin-transaction overrides whose answer must not depend on the order in which a
+/// request's override map happens to be walked: the map names a transaction under its txid and - with
+/// other contents - under the byte-reversed txid (two different keys of a legal request). Asked six
+/// times; every process must give the same six answers.
+fn override_probes(inst: &mut crate::rpc::Inst, out: &mut BTreeMap<String, Value>) {
+    let chain = crate::fakebtc::chain();
+    if chain.txs.len() < 3 {
+        return;
+    }
+    let k = chain.txs[2].txid_hex.clone();
+    let rev: String = hex::encode(hex::decode(&k).unwrap_or_default().iter().rev().cloned().collect::<Vec<u8>>());
+    let mut other = chain.txs[2].tx.clone();
+    for o in other.output.iter_mut() {
+        o.value = bitcoin::Amount::from_sat(o.value.to_sat() + 1);
+    }
+    let overrides = json!({"opReturnTxIds": [], "bitcoinTxHexes": {
+        format!("0x{}", k): hist::hx(&chain.txs[2].raw),
+        format!("0x{}", rev): hist::hx(&bitcoin::consensus::encode::serialize(&other)),
+        format!("0x{}", chain.txs[1].txid_hex): hist::hx(&chain.txs[1].raw),
+    }});
+    let call = json!({"to": "0x00000000000000000000000000000000000000fd", "data": hist::hx(&crate::pre::get_tx_details(&chain.txs[2].txid_b32))});
+    for i in 0..6 {
+        let r = inst.call("eth_callMany", json!([[call.clone()], Value::Null, overrides.clone()]));
+        out.insert(format!("eth_callMany getTxDetails with a mirrored override key #{}", i), obs::canon_resp(&r));
+    }
+}
+
+pub fn replay_with_obs_probes(ops: &[Op], u: &Universe, reopen_after_commit: bool, probes: bool) -> TwinOut {
     let mut d = new_driver("C02");
     let mut out = TwinOut::default();
     for op in ops {
@@ -79,7 +110,11 @@ pub fn replay_with_obs(ops: &[Op], u: &Universe, reopen_after_commit: bool) -> T
         if boundary {
             let mut uu = u.clone();
             uu.max_height = d.height.max(0) as u64;
-            out.obs.push(obs::observe(&mut d.inst, &uu, ObsMode::Boundary).entries);
+            let mut entries = obs::observe(&mut d.inst, &uu, ObsMode::Boundary).entries;
+            if probes && out.obs.len() % 4 == 1 {
+                override_probes(&mut d.inst, &mut entries);
+            }
+            out.obs.push(entries);
         }
     }
     drop_driver(d);
@@ -389,7 +424,7 @@ pub fn build_corpus(net: &str) -> (Vec<Op>, Universe) {
 
 /// Replays the recorded corpus; returns per-boundary digests, final per-query digests, final Obs.
 pub fn digest_corpus(ops: &[Op], u: &Universe) -> (Vec<String>, BTreeMap<String, String>, BTreeMap<String, Value>) {
-    let out = replay_with_obs(ops, u, false);
+    let out = replay_with_obs_probes(ops, u, false, false);
     let mut per_boundary = Vec::new();
     for o in &out.obs {
         let mut h = Sha256::new();
